@@ -424,7 +424,7 @@ def run_check(prop, tier, verif_seed, n_runs=None, wall=None, procs=None,
     if agg.get('timeouts'):
         lines.append('NOTE: %d runs abandoned by the %ss wall-clock guard '
                      '(indices %s)' % (agg['timeouts'], os.environ.get(
-                         'DST_RUN_TIMEOUT', '30'),
+                         'DST_RUN_TIMEOUT', '60'),
                          sorted(agg['timeout_indices'])[:10]))
         if agg['timeouts'] > max(5, 0.02 * agg['runs']) and exit_code == 0:
             lines.append('HARNESS-ERROR too many abandoned runs')
